@@ -6,7 +6,7 @@ import os
 from .tools.odmlparser import ODMLReader, ODMLWriter
 
 
-def load(filename, backend="xml", show_warnings=True):
+def load(filename, backend="xml", show_warnings=True, rdf_format="xml"):
     """
     Load an odML document from file.
     :param filename: Path and filename from where the odML document
@@ -14,7 +14,9 @@ def load(filename, backend="xml", show_warnings=True):
     :param backend: File format of the file containing the odML document.
                     The default format is XML.
     :param show_warnings: Toggle whether to print warnings to the command line.
-    :return: The parsed odML document.
+    :param rdf_format: RDF serialisation of the file; used with backend RDF only.
+                       The default is "xml", the default RDF format of "save".
+    :return: The parsed odML document; a list of odML documents with backend RDF.
     """
     if not os.path.exists(filename):
         msg = "File \'%s\' was not found!" % \
@@ -22,6 +24,9 @@ def load(filename, backend="xml", show_warnings=True):
         raise FileNotFoundError(msg)
 
     reader = ODMLReader(backend, show_warnings)
+    if reader.parser == "RDF":
+        return reader.from_file(filename, rdf_format)
+
     return reader.from_file(filename)
 
 
